@@ -219,8 +219,10 @@ def r11_3(ctx):
     if len(on) == 2:
         g1 = fl.guards_at(on[0]) or set()
         g2 = fl.guards_at(on[1]) or set()
-        ok = ast.unparse(on[0].value) == "True" and any("DEP_OP_BEGIN" in k and p for k, p in g1) and \
-            ast.unparse(on[1].value) == "False" and any("DEP_OP_END" in k and p for k, p in g2)
+        # the markers are recognised whatever blanks surround them (hand-edited or re-indented files): the comparison is made
+        # on the stripped line
+        ok = ast.unparse(on[0].value) == "True" and any("DEP_OP_BEGIN" in k and ".strip()" in k and p for k, p in g1) and \
+            ast.unparse(on[1].value) == "False" and any("DEP_OP_END" in k and ".strip()" in k and p for k, p in g2)
     (ctx.ok(construct, f.loc(on[0])) if ok else ctx.bad(construct, "begin/end handling changed", f.loc(loop)))
     cr = repo.func(f"{CORE}:Kconfig._load_config.<locals>._create_new_deprecated_symbol")
     ctx.analysed(cr.qual)
